@@ -374,7 +374,13 @@ def events(b, rng, exp, ver, players, vehicles, consts):
     # every kind of event at least three times (counts, sums and orders are only observable with repetition), then random ones
     forced = [0.1, 0.2, 0.4, 0.55, 0.65, 0.75, 0.85, 0.95] * 3
     rng.shuffle(forced)
-    for r in forced + [rng.random() for _ in range(n)]:
+    rs = forced + [rng.random() for _ in range(n)]
+    stats_at = rng.randrange(len(rs) // 2) if ('stats' in b.tab and ver != (12, 7, 0)) else None
+    for step, r in enumerate(rs):
+        if step == stats_at:
+            # post-battle statistics (12.6+ numbering) may arrive before the last events; only the 12.7.0 controller looks at them
+            js = json.dumps({'note': 'post battle results', 'n': step}).encode()
+            b.emit('stats', struct.pack('<i', len(js)) + js)
         if r < 0.15 and len(vehicles) >= 2:
             victim, killer = rng.sample(vehicles, 2)
             typ = rng.choice(list(getattr(consts, 'DEATH_TYPES', {1: 0}).keys()) or [1])
